@@ -13,7 +13,7 @@ def tla_bool(b):
 def frame_tla(f):
     bl = ", ".join("[k |-> %d, c |-> %d, d |-> %d, last |-> %s, ok |-> %s]" % (KIND[b["kind"]], b["c"], b["d"], tla_bool(b["last"]), tla_bool(b["ok"]))
                    for b in f["blocks"])
-    return "[hdr |-> %d, win |-> %d, cks |-> %s, blocks |-> <<%s>>]" % (f["hdr"], f["win"], tla_bool(f["cks"]), bl)
+    return '[hdr |-> %d, win |-> %d, cks |-> %s, rerr |-> "%s", blocks |-> <<%s>>]' % (f["hdr"], min(f["win"], 1 << 30), tla_bool(f["cks"]), f.get("rerr", ""), bl)
 
 
 def boundaries(f, dense=False):
@@ -106,6 +106,9 @@ def run_config(ctx, name, setname, params, cuts="full", invariants=None, what=""
         fp = fp2
     if cuts == "full":
         cutsets = [[f["len"]] for f in frames]
+    elif cuts == "sparse":
+        # the end, inside the last block / checksum, inside the first block header, inside the frame header
+        cutsets = [sorted({f["len"], f["len"] - 1, f["hdr"] + 2, f["hdr"] - 1, (f["hdr"] + f["len"]) // 2}) for f in frames]
     else:
         cutsets = [boundaries(f, dense) for f in frames]
     res, dot = run_fd_model(ctx, name, frames, cutsets, params, invariants or FD_INVS)
